@@ -155,6 +155,40 @@ samples:
 '''
 
 
+def extended_ops_input():
+    """Compute-style extended operations: one service whose RPCs name six different operation services."""
+    from .c16_selective import Q as Q16, P as P16
+    from ..desc import enum
+    names_ = ['Zonal', 'Regional', 'Global', 'Alpha', 'Beta', 'Org']
+    msgs = [
+        message('Operation', [field('name', 1, 'string', operation_field=1), field('http_error_status_code', 2, 'int32', operation_field=3),
+                              field('http_error_message', 3, 'string', operation_field=4),
+                              field('status', 4, 'enum:' + Q16('Operation.Status'), operation_field=2)],
+                enums=[enum('Status', 'UNDEFINED_STATUS', 'DONE', 'PENDING', 'RUNNING')]),
+        message('StartRequest', [field('project', 1, 'string', operation_request_field='project'), field('what', 2, 'string')]),
+    ]
+    svcs, starts = [], []
+    for n in names_:
+        msgs.append(message(f'Get{n}OperationRequest', [field('operation', 1, 'string', operation_response_field='name'),
+                                                        field('project', 2, 'string')]))
+        svcs.append(service(f'{n}Operations', [method('Get', Q16(f'Get{n}OperationRequest'), Q16('Operation'),
+                                                      http=('get', f'/v1/projects/{{project}}/{n.lower()}ops/{{operation}}'),
+                                                      operation_polling=True)]))
+        starts.append(method(f'Start{n}', Q16('StartRequest'), Q16('Operation'), http=('post', f'/v1/projects/{{project}}:start{n.lower()}', '*'),
+                             operation_service=f'{n}Operations'))
+    svcs.append(service('Jobs', starts))
+    f = file('acme/sel/v1/jobs.proto', P16, messages=msgs, services=svcs)
+    f.dependency.extend(desc.std_dep_names())
+    return request([f], 'transport=rest,autogen-snippets=false'), None
+
+
+def selective_input():
+    """Selective generation (the pruning pass) over the C16 type graph."""
+    from . import c16_selective as c16
+    keep = [f'{c16.P}.{s}.{r}' for s, r in c16.RPCS[:4]]
+    return request(c16.graph(), 'transport=grpc+rest,autogen-snippets=false,service-yaml=@svc.yaml@'), {'svc.yaml': c16.yaml_for(keep, False)}
+
+
 def inputs(thorough):
     ok_edits = [n for n in edits.EDIT_NAMES if n not in ('subpkg_service', 'recursive_oneof_first', 'subpkg_types')]
     out = {
@@ -166,10 +200,12 @@ def inputs(thorough):
         'subpackages': hostile_subpackages(),
         'max-state': (edits.build(ok_edits, 'transport=grpc+rest,metadata'), None),
         'baseline+handwritten-samples': (apis.baseline('transport=grpc,samples=@samples.yaml@'), {'samples.yaml': SAMPLE_CONFIG}),
+        'baseline+mixins': (apis.baseline('transport=grpc+rest,metadata,service-yaml=@svc.yaml@'),
+                            {'svc.yaml': apis.MIXIN_YAML.format(service='acme.lib.v1.Library')}),
+        'extended-operations': extended_ops_input(),
+        'selective-generation': selective_input(),
     }
     if thorough:
-        out['baseline+mixins'] = (apis.baseline('transport=grpc+rest,metadata,service-yaml=@svc.yaml@'),
-                                  {'svc.yaml': apis.MIXIN_YAML.format(service='acme.lib.v1.Library')})
         out['baseline-ads'] = (apis.baseline('transport=grpc,python-gapic-templates=ads-templates,old-naming'), None)
         out['baseline-rest'] = (apis.baseline('transport=rest,rest-numeric-enums'), None)
         for n in ('file2_service', 'two_services_one_file', 'resource_multi_pattern', 'same_basename_imports'):
